@@ -735,6 +735,18 @@ func runC17Resp(w *W, flavour string) {
 		if !bytes.Equal(in.B, input) {
 			w.Failf("input-modified", facts, "conversion modified its input (env %s)", envs)
 		}
+		// the caller may recycle its input buffer as soon as the conversion has returned: what was delivered to
+		// the response must not change with it
+		if inPlace == simrt.PlaceHeap {
+			before := callsString(rec.calls)
+			for i := range in.B {
+				in.B[i] = '#'
+			}
+			if after := callsString(rec.calls); after != before {
+				w.Failf("response-aliases-input", facts, "values delivered to the response changed when the caller overwrote its input buffer (env %s)\n was: %s\n now: %s", envs, clip([]byte(before), 300), clip([]byte(after), 300))
+			}
+			copy(in.B, input)
+		}
 		// responses of earlier conversions that have not been written out yet still hold their bodies
 		for _, hb := range held {
 			if !bytes.Equal(hb.b, hb.snap) {
